@@ -4,7 +4,7 @@
 """
 import copy
 import numpy as np
-from pmv import common, gen, observe
+from pmv import common, gen, observe, corpus
 from pmv.oracles import georef
 
 ID   = 'C05'
@@ -26,7 +26,8 @@ MAX_DISCARD = 0.5
 
 def plan (tier, seed):
     n = 240 if tier == 'quick' else 5000
-    return [dict (i = i, seed = seed) for i in range (n)]
+    return [dict (i = i, seed = seed) for i in range (n)] \
+         + corpus.plan_cases (seed, tier, 1, 4, only = lambda s: all (g ['k'] == 'w' for g in s ['geo']))
 # end def plan
 
 def curve_base (rng):
@@ -51,6 +52,17 @@ def curve_base (rng):
 
 def make (c):
     rng = np.random.default_rng ([c ['seed'], 5, c ['i']])
+    if 'corpus' in c:
+        # the repository's antennas (wires only, sources and loads by location), moved as a whole
+        spec = corpus.located (corpus.make (c, 5))
+        if spec ['media'] is not None:
+            spec ['media'] = [[0.0, 0.0, 0.0, None]]
+            spec.pop ('boundary', None)
+            spec.pop ('radials', None)
+        return add_motion (c, rng, spec, scale = all (l ['k'] == 'z' for l in spec ['loads'])
+                                                   # explicit taper limits are absolute lengths, they do not follow the scale
+                                                   and not any (g.get ('taper') and (g ['taper'][1] or g ['taper'][2]) for g in spec ['geo'])
+                          , taper = False)
     u = rng.random ()
     if u < 0.12:
         spec = curve_base (rng)
@@ -67,6 +79,10 @@ def make (c):
         spec ['loads'] = [dict (k = 'z', z = [float (10 ** rng.uniform (0, 2.5)), float (rng.uniform (-100, 100))], at = fd ['at'])]
     for i, g in enumerate (spec ['geo']):
         g ['tag'] = i + 1
+    return add_motion (c, rng, spec)
+# end def make
+
+def add_motion (c, rng, spec, scale = True, taper = True):
     gnd = spec ['media'] is not None
     lam = gen.C_MHZ / spec ['f']
     keys = [float (k) for k in rng.permutation ([-20, -3, -1.5, 0, 1, 2, 2.5, 9, 10, 11, 20, 100]) [: int (rng.integers (1, 5))]]
@@ -84,10 +100,12 @@ def make (c):
             if gnd:
                 v [2] = 0.0
             tr.append (['translate', key, [float (x) for x in v]])
-    sc = float (10 ** rng.uniform (-2, 2)) if rng.random () < 0.6 else None
+    sc = float (10 ** rng.uniform (-2, 2)) if rng.random () < 0.6 and scale else None
     spec ['motion'] = dict (tr = tr, sc = sc, per_tag = per_tag, order = [int (x) for x in rng.permutation (len (tr))])
     spec ['dirs'] = rng.normal (size = (8, 3)).tolist ()
     spec = gen.clean (spec)
+    if not taper:
+        return spec
     # tapered wires (default limits, which follow the radius): none that carries a source or load, those are
     # placed by location on the equal segmentation
     marks = [np.array (x ['at']) for x in spec ['src'] + spec ['loads'] if 'at' in x]
@@ -99,7 +117,7 @@ def make (c):
             if not on:
                 g ['taper'] = [int (rng2.integers (1, 4)), None, None]
     return spec
-# end def make
+# end def add_motion
 
 def transform (tr, sc):
     """ point map and vector map of the motion (keys ascending, scaling last) """
@@ -128,7 +146,7 @@ def variants (spec):
     def moved_src (s):
         return dict (at = T (s ['at']).tolist (), dir = Tv (s ['dir']).tolist (), v = s ['v'])
     def moved_load (l):
-        return dict (l, at = T (l ['at']).tolist ())
+        return dict (l, at = T (l ['at']).tolist ()) if 'at' in l else dict (l)
     # B1: options
     b1 = copy.deepcopy ({k: v for k, v in spec.items () if k not in ('motion', 'dirs')})
     opts = []
@@ -244,7 +262,7 @@ def check_indep (spec):
 # end def check_indep
 
 def check (c):
-    if 'geo' not in c and c ['i'] % 8 == 7:
+    if 'geo' not in c and 'corpus' not in c and c ['i'] % 8 == 7:
         c = make_indep (c)
     if 'indep' in c:
         return check_indep (c)
@@ -346,6 +364,26 @@ def check (c):
         sel = (gA [:, col] > mx - 40) | (gB [:, col] > mx - 40)
         dd = float (np.abs (gA [:, col] - gB [:, col]) [sel].max ()) if sel.any () else 0.0
         judge ('gain', dd + 1e-300, 0.01, 'gain in rotated directions differs by %.4f dB (column %d)' % (dd, col))
+    res_keys = ('currents', 'impedance', 'impedance.routes', 'gain')
+    if viol and all (v ['key'] in res_keys for v in viol) and all (v.get ('measured', np.inf) <= 4 * v.get ('allowed', 0) for v in viol):
+        # known finding: the order of the Gauss rule is chosen by t = (d0 + d3) / segment length against 6 and 10; on a
+        # straight, equally segmented wire pairs of pulses sit exactly on a threshold and the last bit of the
+        # coordinates decides between the 8- and the 4-point rule for a whole band of the matrix. Classified as that
+        # finding only if such pairs exist in the fill of either model, the excess is small, and the two models agree
+        # within the stated tolerance once every integral uses the 8-point rule (experiment made on the spot).
+        if observe.threshold_pairs (mA) + observe.threshold_pairs (mB) > 0:
+            with observe.gauss_order_fixed ():
+                xA, xB = gen.build (base), gen.build (b1)
+                observe.solve (xA)
+                observe.solve (xB)
+                d2 = observe.cmp_fields (observe.current_field (xA, unit = unit), observe.current_field (xB, T = back, Tv = backv, unit = unit))
+                z2 = max (abs (sa.impedance - sb.impedance) / abs (sa.impedance) for sa, sb in zip (xA.sources, xB.sources))
+                g2 = float (np.abs (gain_at (xA, dirs) - gain_at (xB, [Tv (d) for d in dirs])) [:, 2].max ())
+            mon ['experiment.gauss-order-fixed'] = 1
+            if d2 is not None and d2 <= tol and z2 <= tol and g2 <= 0.01:
+                for v in viol:
+                    v ['key'] = 'quadrature-order-on-threshold'
+                    v ['msg'] += ' [with the 8-point rule everywhere: currents %.3g, impedance %.3g, gain %.2g dB]' % (d2, z2, g2)
     kinds = sorted (set (t [0] for t in spec ['motion']['tr'])) + (['scale'] if spec ['motion']['sc'] else []) \
           + (['per-tag'] if spec ['motion']['per_tag'] else [])
     sig = gen.signature (base, mA, extra = ['+'.join (kinds)])
